@@ -195,7 +195,7 @@ def run_random_session(seed, prof, frontend="wsgi", prefix="/", backend="tree", 
                 ct = None
                 if rng.random() < prof.get("ctparams", 0.3):
                     ct = gamma.decorate_ct(rng, gamma.content_type_for(n))
-                s.put(c, n, data, ct=ct, im=im, inm=inm, valid=valid, fault=fault)
+                s.put(c, n, data, ct=ct, im=im, inm=inm, valid=valid, fault=fault, chunked=rng.random() < 0.2)
             elif op == "post":
                 usevcf = c == "ab1"
                 data, valid = rng.choice(vcf if usevcf else ics)
